@@ -951,8 +951,10 @@ fn stress(seed: u64, threads: usize, calls: usize, out: &mut String) {
     // history: a large free list, some pending atomics
     let base = 50 + rng.below(200) as usize;
     ex.exec(&Op::CreateIter { atomic: false, n: base });
+    // a quarter of the phases start with an EMPTY free list, another quarter with a nearly empty one
+    let free_mode = rng.below(4);
     for k in 0..base {
-        if rng.chance(1, 2) {
+        if (free_mode >= 2 && rng.chance(1, 2)) || (free_mode == 1 && k < 3) {
             ex.exec(&Op::DelNow(k));
         }
     }
@@ -1004,7 +1006,10 @@ fn stress(seed: u64, threads: usize, calls: usize, out: &mut String) {
                 let should = |e: Entity| if init_set.contains(&e) { alive0.contains(&e) } else { true };
                 barrier.wait();
                 for i in 0..calls {
-                    match rng.weighted(&[45, 3, 25, 12, 1, 14]) {
+                    // phases that start with an empty free list hammer the two creation paths (fresh-index counter,
+                    // pops on an empty list); the others use the general mix
+                    let ws: [u32; 6] = if free_mode == 0 { [45, 40, 6, 4, 1, 4] } else { [45, 3, 25, 12, 1, 14] };
+                    match rng.weighted(&ws) {
                         0 => {
                             let e = ents.create();
                             if !ents.is_alive(e) { r.fails.push(format!("handle {} not alive for its creator", show_entity(e))); }
@@ -1184,7 +1189,13 @@ fn main() {
             let seed: u64 = args[2].parse().unwrap();
             let threads: usize = args[3].parse().unwrap();
             let calls: usize = args[4].parse().unwrap();
-            stress(seed, threads, calls, &mut out);
+            // optional 4th argument: split the calls over that many rounds, each a fresh world and a fresh shared-access
+            // phase (first pushes / first pops of a phase are where several one-time races live)
+            let rounds: usize = args.get(5).and_then(|s| s.parse().ok()).unwrap_or(1).max(1);
+            for r in 0..rounds {
+                stress(seed.wrapping_add(r as u64 * 7919), threads, (calls / rounds).max(20), &mut out);
+                flush(&mut out);
+            }
         }
         Some("run") => {
             let text = std::fs::read_to_string(&args[2]).unwrap();
